@@ -785,9 +785,17 @@ class PathResult:
     __slots__ = ('trace', 'obligations', 'observations', 'ctx', 'error')
 
 
-def explore(fn, max_paths=100000, on_path=None, deadline=None):
-    """DFS over the decision tree of fn(ctx).  fn returns a list of obligations
-    (label, cond[, meta]).  on_path(ctx, ret) is called for every completed path."""
+def _shard_of(trace, depth, n):
+    h = 0
+    for x in trace[:depth]:
+        h = (h * 31 + int(x) + 1) % 1000003
+    return h % n
+
+
+def explore(fn, max_paths=100000, on_path=None, deadline=None, shard=None, shard_depth=4):
+    """DFS over the decision tree of fn(ctx).  on_path(ctx, ret) is called for every completed path.
+    shard=(j, n): only the paths whose first `shard_depth` decisions hash to j are processed (the n shards
+    partition the paths; prefixes shorter than shard_depth are re-executed by every shard to find the subtrees)."""
     pending = [[]]
     npaths = 0
     aborted = 0
@@ -799,6 +807,8 @@ def explore(fn, max_paths=100000, on_path=None, deadline=None):
             complete = False
             break
         prefix = pending.pop()
+        if shard is not None and len(prefix) >= shard_depth and _shard_of(prefix, shard_depth, shard[1]) != shard[0]:
+            continue
         ctx = Ctx(prefix, pending)
         Ctx.cur = ctx
         try:
@@ -811,6 +821,10 @@ def explore(fn, max_paths=100000, on_path=None, deadline=None):
             continue
         finally:
             Ctx.cur = None
+        if shard is not None and _shard_of(ctx.trace, shard_depth, shard[1]) != shard[0]:
+            agg['checks'] += ctx.checks
+            agg['solver_time'] += ctx.solver_time
+            continue
         npaths += 1
         if on_path is not None:
             Ctx.cur = ctx
